@@ -95,6 +95,14 @@ ClosureCases ==
                                          SFor(SVar("i", Num(0)), Bin("<", Id("i"), Num(2)), Asg("i", Bin("+", Id("i"), Num(1))), SBlock(<<SPrint(Id("g")), SExpr(Call(Id("setg"), <<Bin("+", Id("g"), Num(10))>>)), SPrint(Id("g"))>>)) >>),
                    SExpr(Call(Id("watch"), <<>>)), SPrint(Id("g")) >>,
           c |-> "closure:read-sibling-write-read", key |-> "closure:read-sibling-write-read"],
+         \* a returned literal is an ordinary value of its kind
+         [t |-> << SFun("e", <<>>, <<SReturn(Str(""))>>), SFun("t3", <<>>, <<SReturn(Str("x3"))>>), SFun("z", <<>>, <<SReturn(Num(0))>>), SFun("nl", <<>>, <<SReturn(Lit(VNil))>>),
+                   SPrint(Un("!", Call(Id("e"), <<>>))), SIf(Call(Id("e"), <<>>), T("empty-truthy"), T("empty-falsy")), SPrint(Log("or", Call(Id("e"), <<>>), Str("R"))),
+                   SPrint(Log("and", Call(Id("e"), <<>>), Str("R"))), SWhile(Call(Id("e"), <<>>), SBlock(<<T("loop"), SBreak>>)),
+                   SPrint(Arr(<<Call(Id("t3"), <<>>), Call(Id("e"), <<>>), Call(Id("t3"), <<>>)>>)), SPrint(Obj(<<"k">>, <<Call(Id("t3"), <<>>)>>)), SPrint(Bin("==", Call(Id("t3"), <<>>), Str("x3"))),
+                   SPrint(Bin("+", Call(Id("t3"), <<>>), Num(1))), SPrint(Call(Id("len"), <<Arr(<<Call(Id("e"), <<>>)>>)>>)), SPrint(Un("!", Call(Id("z"), <<>>))), SPrint(Log("or", Call(Id("nl"), <<>>), Num(5))),
+                   SVar("h", Obj(<<"a">>, <<Num(1)>>)), SExpr(PAsg(Id("h"), "s", Call(Id("t3"), <<>>))), SPrint(Id("h")), SPrint(Bin("==", Prop(Id("h"), "s"), Call(Id("t3"), <<>>))) >>,
+          c |-> "return:literal-values", key |-> "return:literal-values"],
          \* the function's own name inside its body: an assignment to it in one activation is not what another activation sees
          [t |-> << SFun("f", <<"n">>, << SIf(Bin("==", Id("n"), Num(0)), SBlock(<< SExpr(Asg("f", Num(7))), SPrint(Id("f")), SReturn(Num(0)) >>), None),
                                         SVar("r", Call(Id("f"), <<Bin("-", Id("n"), Num(1))>>)), SPrint(Bin("==", Id("f"), Num(7))), SReturn(Bin("+", Id("r"), Num(1))) >>),
@@ -171,7 +179,7 @@ ValueCases ==
               SFun("f", <<>>, <<SReturn(Str("redefined"))>>), SPrint(Call(Id("f"), <<>>)) >>, c |-> "value:nested-decl", key |-> "value:nested-decl"] }
 
 Cases == SetToSeq(ReturnCases \cup RecCases \cup ClosureCases \cup CalleeCases \cup BindCases \cup ValueCases)
-Programs == [i \in 1..Len(Cases) |-> LayoutProg(Cases[i].t, 1)]
+Programs == TLCEval([i \in 1..Len(Cases) |-> LayoutProg(Cases[i].t, 1)])
 FamProgOf(i) == Programs[i]
 Init == \E i \in 1..Len(Programs) : InitSem(i, <<>>, FALSE)
 Next == SemNext
